@@ -1408,27 +1408,27 @@ pub fn gen(rng: &mut Rng, tier: &str, out: &mut Vec<String>) {
     out.push("quant.fast cont f64 20 18 - 3ff0000000000000,bfe0000000000000,3ff0000000000000".into()); // D14
     out.push("quant.fast cont f64 20 18 4000000000000000 3ff0000000000000,7ff8000000000000,3ff0000000000000".into()); // D14 NaN
     out.push("quant.new i32 10 c 0 10005".into()); // D10
-    for _ in 0..1500 * k {
+    for _ in 0..3000 * k {
         out.push(gen_fast_line(rng));
     }
-    for _ in 0..300 * k {
+    for _ in 0..400 * k {
         out.push(gen_perfect_line(rng));
     }
-    for _ in 0..700 * k {
+    for _ in 0..1200 * k {
         out.push(gen_lazy_line(rng, false));
     }
-    for _ in 0..60 * k {
+    for _ in 0..100 * k {
         out.push(gen_lazy_line(rng, true));
     }
-    for _ in 0..400 * k {
+    for _ in 0..600 * k {
         out.push(gen_new_line(rng));
     }
-    for _ in 0..1200 * k {
+    for _ in 0..2500 * k {
         if let Some(l) = gen_leaky_line(rng, false) {
             out.push(l);
         }
     }
-    for _ in 0..80 * k {
+    for _ in 0..150 * k {
         if let Some(l) = gen_leaky_line(rng, true) {
             out.push(l);
         }
@@ -2152,30 +2152,30 @@ fn oracle_diag(rng: &mut Rng, rep: &mut Report) {
 pub fn oracle(rng: &mut Rng, tier: &str, rep: &mut Report) {
     let k = if tier == "thorough" { 20 } else { 1 };
     let fnames = ["f32", "f64"];
-    for _ in 0..700 * k {
+    for _ in 0..3000 * k {
         let (b, p) = pick_bp(rng, FP_BP);
         let f = *rng.pick(&fnames);
         dispatch_oracle_fast(f, b, p, rng, rep);
     }
-    for _ in 0..60 * k {
+    for _ in 0..300 * k {
         let (b, p) = pick_bp(rng, LOOKUP_BP);
         let f = *rng.pick(&fnames);
         dispatch_oracle_lookup(f, b, p, rng, rep);
     }
-    for _ in 0..300 * k {
+    for _ in 0..1000 * k {
         let (b, p) = pick_bp(rng, PERFECT_BP);
         let f = *rng.pick(&fnames);
         dispatch_oracle_perfect(f, b, p, rng, rep);
     }
-    for _ in 0..500 * k {
+    for _ in 0..2000 * k {
         oracle_new(rng, rep);
     }
-    for i in 0..260 * k {
+    for i in 0..1000 * k {
         // mostly small supports (every quantile × every hint), some huge ones
         let spec = gen_leaky_spec(rng, if i % 8 == 0 { 1 << 20 } else { 400 });
         dispatch_leaky_oracle(&spec, rng, rep);
     }
-    for _ in 0..300 * k {
+    for _ in 0..1500 * k {
         oracle_diag(rng, rep);
     }
 }
